@@ -447,6 +447,7 @@ async fn step(errs: &Errs, da: &Path, db: &Path, slots: &mut [Option<Handle>], o
         }
         Op::Metadata { slot } if need(slots, slot) => {
             let h = slots[slot].as_mut().unwrap();
+            stamp(h.ours.as_raw_fd(), None, true, seed);
             let ours = h.ours.metadata().await;
             let os = h.os.metadata();
             if same_outcome(errs, &tag, &ours, &os) {
@@ -524,6 +525,7 @@ async fn step(errs: &Errs, da: &Path, db: &Path, slots: &mut [Option<Handle>], o
             dir_step(errs, da, db, slots, op, seed, &tag).await;
         }
         Op::PathMetadata { name, follow } => {
+            stamp(-1, Some(&pa(name)), follow, seed);
             let ours = if follow { compio_fs::metadata(pa(name)).await } else { compio_fs::symlink_metadata(pa(name)).await };
             let os = if follow { std::fs::metadata(pb(name)) } else { std::fs::symlink_metadata(pb(name)) };
             if same_outcome(errs, &tag, &ours, &os) {
@@ -584,6 +586,7 @@ async fn dir_step(errs: &Errs, da: &Path, db: &Path, slots: &mut [Option<Handle>
             }
         },
         Op::DirMetadata { sub, name, follow } => {
+            stamp(-1, Some(&if sub { da.join("sub").join(NAMES[name]) } else { da.join(NAMES[name]) }), follow, seed);
             let ours = if follow { dir(sub).metadata(NAMES[name]).await } else { dir(sub).symlink_metadata(NAMES[name]).await };
             let os = if follow { std::fs::metadata(pb(sub, name)) } else { std::fs::symlink_metadata(pb(sub, name)) };
             if same_outcome(errs, tag, &ours, &os) {
@@ -653,6 +656,24 @@ fn compare_meta(errs: &Errs, tag: &str, ours: &compio_fs::Metadata, os: &std::fs
     let b = (os.is_file(), os.is_dir(), os.is_symlink(), if os.is_dir() { 0 } else { os.len() }, os.permissions().mode() & 0o7777);
     if a != b {
         errs.push("metadata", format!("{tag}: compio reports (file, dir, symlink, len, mode) = {a:?}, the OS {b:?}"));
+    }
+}
+
+/// Give an object access and modification times that are a function of the run (different seconds and
+/// sub-second parts), so that what the metadata calls report does not depend on when the run happens.
+fn stamp(fd: i32, path: Option<&Path>, follow: bool, seed: u64) {
+    let ts = |k: u64| libc::timespec { tv_sec: 1_600_000_000 + (seed >> (8 * k) & 0xffff) as i64, tv_nsec: ((seed >> (16 + 4 * k)) % 1_000_000_000) as i64 };
+    let times = [ts(0), ts(1)];
+    unsafe {
+        match path {
+            Some(p) => {
+                let c = std::ffi::CString::new(std::os::unix::ffi::OsStrExt::as_bytes(p.as_os_str())).unwrap();
+                libc::utimensat(libc::AT_FDCWD, c.as_ptr(), times.as_ptr(), if follow { 0 } else { libc::AT_SYMLINK_NOFOLLOW });
+            }
+            None => {
+                libc::futimens(fd, times.as_ptr());
+            }
+        }
     }
 }
 
